@@ -14,6 +14,6 @@ def run(ctx):
     n = 60 if ctx.tier == "quick" else 3000
     fams = [pc.family_matrix, pc.family_routing, ("gen", "gen.p2b1", n), ("gen", "gen.idem", n),
             lambda: pc.family_faults(False, ctx.seed), lambda: pc.family_faults(True, ctx.seed),
-            lambda: pc.family_gates(True), pc.family_idem_clean, pc.family_retry0, lambda: pc.family_resubmit(False), lambda: pc.family_resubmit(True)]
+            lambda: pc.family_gates(True), pc.family_idem_clean, pc.family_retry0, lambda: pc.family_resubmit(False), lambda: pc.family_resubmit(True), lambda: pc.family_codeapp(False), lambda: pc.family_codeapp(True)]
     mc = ["MCProducer.small.cfg", "MCProducer.idem.cfg"] if ctx.tier == "quick" else ["MCProducer.quick.cfg", "MCProducer.idem.cfg"]
     return pc.check(ctx, "C04", fams, mc)
